@@ -3,6 +3,7 @@ package main
 import (
 	"fmt"
 	"go/token"
+	"go/types"
 	"regexp"
 	"regexp/syntax"
 	"sort"
@@ -343,4 +344,76 @@ func ruleC18_alias(c *Ctx) {
 		c.bad(R, fname(w.fn), "write "+w.path, w.instr.Pos(), "SubstituteParameters writes through memory of its layout/dictionary arguments: the caller's layout is modified")
 	}
 	c.ok(R, fname(f), "effects summary", f.Pos(), fmt.Sprintf("%d contexts, %d argument-memory writes", len(a.memo), len(s.writes)))
+}
+
+// R-C18-7: whenever SubstituteParameters (or a helper it calls) rebuilds a Layout / Step / Inspection /
+// SupplyChainItem with a composite literal, every field of the type is assigned — a field left out of the literal is
+// silently reset (e.g. Threshold 0).
+func init() {
+	for _, id := range []string{"C18", "C02"} {
+		if p := registry[id]; p != nil {
+			p.Rules = append(p.Rules, Rule{ID: "R-C18-7", Doc: "metadata structs rebuilt during substitution keep every field", Min: 1, Run: ruleC18_7})
+			if id == "C02" {
+				p.Rules = append(p.Rules, Rule{ID: "R-C18-1", Doc: "substitution rewrites exactly six fields: thresholds, keys and constraints reach the threshold check unchanged (shared with C18)", Min: 8, Run: ruleC18_1})
+			}
+		}
+	}
+	if p := registry["C18"]; p != nil {
+		p.Explanation += " (R-C18-7) a Step / Inspection / SupplyChainItem / Layout rebuilt by a composite literal during substitution assigns every field of its type."
+	}
+}
+
+func ruleC18_7(c *Ctx) {
+	const R = "R-C18-7"
+	root := c.lookup("in_toto.SubstituteParameters")
+	if root == nil {
+		c.undecided(R, "in_toto.SubstituteParameters", "anchor", 0, "not found")
+		return
+	}
+	fns := []*ssa.Function{root}
+	seen := map[*ssa.Function]bool{root: true}
+	for i := 0; i < len(fns); i++ {
+		for _, call := range allCalls(fns[i]) {
+			if g := call.Common().StaticCallee(); g != nil && g.Blocks != nil && g.Pkg == c.pkg("in_toto") && !seen[g] {
+				seen[g] = true
+				fns = append(fns, g)
+			}
+		}
+	}
+	watched := map[string]bool{"in_toto.Step": true, "in_toto.Inspection": true, "in_toto.SupplyChainItem": true, "in_toto.Layout": true}
+	n := 0
+	for _, f := range fns {
+		for _, b := range f.Blocks {
+			for _, in := range b.Instrs {
+				al, ok := in.(*ssa.Alloc)
+				if !ok || al.Comment != "complit" {
+					continue
+				}
+				pt, ok := al.Type().Underlying().(*types.Pointer)
+				if !ok || !watched[typeStr(pt.Elem())] {
+					continue
+				}
+				st := pt.Elem().Underlying().(*types.Struct)
+				set := map[string]bool{}
+				for _, r := range *al.Referrers() {
+					if fa, ok := r.(*ssa.FieldAddr); ok {
+						for _, rr := range *fa.Referrers() {
+							if _, ok := rr.(*ssa.Store); ok {
+								set[fieldName(fa.X.Type(), fa.Field)] = true
+							}
+						}
+					}
+				}
+				var missing []string
+				for i := 0; i < st.NumFields(); i++ {
+					if !set[st.Field(i).Name()] {
+						missing = append(missing, st.Field(i).Name())
+					}
+				}
+				n++
+				c.check(len(missing) == 0, R, fname(f), "literal "+typeStr(pt.Elem())+" assigns every field", al.Pos(), fmt.Sprintf("%d fields", st.NumFields()), "a "+typeStr(pt.Elem())+" is rebuilt without the field(s) "+strings.Join(missing, ", ")+": they are reset to their zero value by parameter substitution")
+			}
+		}
+	}
+	c.ok(R, fname(root), "struct literals in the substitution code scanned", root.Pos(), fmt.Sprintf("%d functions, %d literals of metadata types", len(fns), n))
 }
